@@ -171,6 +171,7 @@ func (w *worker) exec(c *mc.Ctx, cs Case) {
 	w.cur, w.log = &cs, &readLog{}
 	res := w.server(cs.MaxBody).Run(segs, netsim.EndEOF, nil)
 	lg := w.log
+	c.Distinct("outcomes", fmt.Sprintf("handlers=%d|read=%d/%d|eof=%v|errs=%d|closed=%v|endreads=%d", len(res.Seen), len(lg.got), len(body), lg.eofAt >= 0, len(lg.errs), res.Closed, res.SC.EndReads))
 	fail := func(kind, msg string) {
 		enc := "cl"
 		if cs.Chunked {
